@@ -32,6 +32,19 @@ def Qg (s : St) {α} (p : α → St → Prop) : PostCond α PS :=
   ⟨fun a st => ⌜Inv st ∧ S s st ∧ p a st⌝, fun e st => ⌜(NonPanic e → Inv st) ∧ Good e⌝,
    fun _ => ⌜True⌝, ()⟩
 
+/-- a deferred application prepared by `std_bindCall`: body and environment, well scoped -/
+def CallOk (envs : Array Env) (c : Expr × EId) : Prop := ∃ Γ, EnvOk envs c.2 Γ ∧ WS c.1 Γ
+
+/-- invariant of a loop without typed state of its own (`s1`: the store at loop entry) -/
+def loopInv1 (s s1 : St) {β} : PostCond β PS :=
+  ⟨fun _ st => ⌜Inv st ∧ S s st ∧ S s1 st⌝, fun e st => ⌜(NonPanic e → Inv st) ∧ Good e⌝,
+   fun _ => ⌜True⌝, ()⟩
+
+/-- invariant of a loop that collects prepared applications -/
+def callsInv (s s1 : St) {β} : PostCond (β × List (Expr × EId)) PS :=
+  ⟨fun (_, calls) st => ⌜Inv st ∧ S s st ∧ S s1 st ∧ ∀ c ∈ calls, CallOk st.envs c⌝,
+   fun e st => ⌜(NonPanic e → Inv st) ∧ Good e⌝, fun _ => ⌜True⌝, ()⟩
+
 /-- read-only operations: the store is unchanged -/
 def Qro (s : St) {α} (p : α → Prop) : PostCond α PS :=
   ⟨fun a st => ⌜st = s ∧ p a⌝, fun e st => ⌜st = s ∧ Good e⌝, fun _ => ⌜True⌝, ()⟩
@@ -125,10 +138,25 @@ elab "assign_invs " t:term : tactic => do
       rest := rest.push g
   setGoals rest.toList
 
+open Lean Elab Tactic in
+/-- run a tactic on every loop-invariant goal (`inv<N>`) -/
+elab "on_invs " t:tacticSeq : tactic => do
+  let gs ← getGoals
+  let mut rest : Array MVarId := #[]
+  for g in gs do
+    if ← g.isAssigned then continue
+    let tag ← g.getTag
+    if tag.components.any (fun c => c.toString.startsWith "inv") then
+      setGoals [g]
+      evalTactic t
+    else
+      rest := rest.push g
+  setGoals rest.toList
+
 /-- normal form of a verification condition: postconditions unfolded, hypotheses split -/
 macro "vcprep" : tactic => `(tactic|
   ((try intros);
-   (try simp only [Q, Qg, Qro, Qx, SPred.down_pure] at *);
+   (try simp only [Q, Qg, Qro, Qx, loopInv1, callsInv, SPred.down_pure] at *);
    destruct_hyps;
    (try subst_vars)))
 
